@@ -14,6 +14,7 @@ pub struct Report {
     pub started: Instant,
     pub evaluations: AtomicU64,
     pub traces: AtomicU64,
+    pub max_keys: AtomicU64,
     inner: Mutex<Inner>,
 }
 
@@ -52,6 +53,7 @@ impl Report {
             started: Instant::now(),
             evaluations: AtomicU64::new(0),
             traces: AtomicU64::new(0),
+            max_keys: AtomicU64::new(40),
             inner: Mutex::new(Inner::default()),
         }
     }
@@ -138,12 +140,12 @@ impl Report {
             e.0 += 1;
             return;
         }
-        if g.violations.len() >= 40 {
+        if g.violations.len() >= self.max_keys.load(Ordering::Relaxed) as usize {
             // enough distinct replayable violations: count the rest without printing more lines
             g.overflow += 1;
             return;
         }
-        let path = if g.violations.len() < 40 {
+        let path = if g.violations.len() < 100_000 {
             let r = replay();
             let dir = format!("{}/replays/{}", crate::verif_root(), self.id);
             let _ = std::fs::create_dir_all(&dir);
